@@ -20,9 +20,39 @@ import (
 	"google.golang.org/grpc/status"
 )
 
-// TestVerifDriverC01: {"arg": code + 100*p} -> 200 calls through the client BreakerInterceptor of a fresh method
-// whose invoker returns status.Error(code) (p = 0) or panics (p = 1 string, 2 error); frozen clock. "ok" is false
-// iff any call was cut off by the breaker (ErrServiceUnavailable, invoker not reached); "repanic": how many of
+// verifC01Ctx builds the caller's context of one call: class 0 live | 1 its own deadline has expired
+// (ctx.Err() == context.DeadlineExceeded) | 2 cancelled by the caller | 4, 5 live (the callee panics).
+func verifC01Ctx(class int64) (context.Context, context.CancelFunc) {
+	switch class {
+	case 1:
+		return context.WithDeadline(context.Background(), time.Unix(1, 0))
+	case 2:
+		ctx, cancel := context.WithCancel(context.Background())
+		cancel()
+		return ctx, cancel
+	}
+	return context.WithCancel(context.Background())
+}
+
+// verifC01Outcome is what a gRPC transport hands back for that context: the status of the context error when
+// the context is done (status.FromContextError), else status.Error(code); class 4 / 5 panic (string / error).
+func verifC01Outcome(ctx context.Context, class, code int64) error {
+	switch class {
+	case 4:
+		panic("verif panic")
+	case 5:
+		panic(errors.New("verif panic error"))
+	}
+	if ctx.Err() != nil {
+		return status.FromContextError(ctx.Err()).Err()
+	}
+	return status.Error(codes.Code(code), "verif")
+}
+
+// TestVerifDriverC01 drives the real client BreakerInterceptor with a stub invoker on a frozen clock.
+// {"arg": code + 100*p}: 200 identical calls (p = 0 status.Error(code), 1 panic(string), 2 panic(error)) of a fresh
+// method; {"calls": [[class, code], ...]}: a mixed stream through one fresh method.  "rej"[i] = 1 iff call i was
+// cut off by the breaker (ErrServiceUnavailable, invoker not reached); "ok" iff none was; "repanic": how many of
 // the invoker's panics came back out of the interceptor.
 func TestVerifDriverC01(t *testing.T) {
 	logx.Disable()
@@ -34,38 +64,45 @@ func TestVerifDriverC01(t *testing.T) {
 	n := 0
 	verifdrv.Run(t, func(raw json.RawMessage) any {
 		var c struct {
-			Arg int `json:"arg"`
+			Arg   int64     `json:"arg"`
+			Calls [][]int64 `json:"calls"`
 		}
 		if err := json.Unmarshal(raw, &c); err != nil {
 			return map[string]any{"error": err.Error()}
+		}
+		if c.Calls == nil {
+			class := []int64{0, 4, 5}[c.Arg/100]
+			for i := 0; i < 200; i++ {
+				c.Calls = append(c.Calls, []int64{class, c.Arg % 100})
+			}
 		}
 		timex.VerifSetNow(time.Hour)
 		defer timex.VerifClockOff()
 		n++
 		method := fmt.Sprintf("/verif.c01/client-%d", n)
 		reached, dropped, repanic := 0, 0, 0
-		invoker := func(ctx context.Context, method string, req, reply any, cc *grpc.ClientConn, opts ...grpc.CallOption) error {
-			reached++
-			switch c.Arg / 100 {
-			case 1:
-				panic("verif panic")
-			case 2:
-				panic(errors.New("verif panic error"))
+		rej := make([]int64, 0, len(c.Calls))
+		for _, call := range c.Calls {
+			ctx, cancel := verifC01Ctx(call[0])
+			invoker := func(ctx context.Context, method string, req, reply any, cc *grpc.ClientConn, opts ...grpc.CallOption) error {
+				reached++
+				return verifC01Outcome(ctx, call[0], call[1])
 			}
-			return status.Error(codes.Code(c.Arg%100), "verif")
-		}
-		for i := 0; i < 200; i++ {
 			before := reached
 			var err error
 			if p, _ := verifdrv.Catch(func() {
-				err = BreakerInterceptor(context.Background(), method, nil, nil, conn, invoker)
+				err = BreakerInterceptor(ctx, method, nil, nil, conn, invoker)
 			}); p {
 				repanic++
 			}
+			cancel()
 			if reached == before && err == breaker.ErrServiceUnavailable {
 				dropped++
+				rej = append(rej, 1)
+			} else {
+				rej = append(rej, 0)
 			}
 		}
-		return map[string]any{"ok": dropped == 0, "dropped": dropped, "repanic": repanic}
+		return map[string]any{"ok": dropped == 0, "dropped": dropped, "repanic": repanic, "rej": rej}
 	})
 }
